@@ -1606,6 +1606,34 @@ where
 }
 
 // =============================================================================
+// VERIFICATION HOOKS (feature "verif-hooks"; off by default)
+// =============================================================================
+
+/// Raw mutable accessors used by the external verification harness for fault injection.
+/// They bypass every invariant on purpose and exist only with the `verif-hooks` feature.
+#[cfg(feature = "verif-hooks")]
+impl<T, U, V, const D: usize> Cell<T, U, V, D>
+where
+    U: DataType,
+    V: DataType,
+{
+    /// Raw access to the vertex-key slots of this cell.
+    pub const fn verif_vertices_mut(&mut self) -> &mut CellVertexBuffer {
+        &mut self.vertices
+    }
+
+    /// Raw access to the neighbor buffer of this cell.
+    pub const fn verif_neighbors_mut(&mut self) -> &mut Option<NeighborBuffer<Option<CellKey>>> {
+        &mut self.neighbors
+    }
+
+    /// Overwrites the cell UUID without touching any mapping.
+    pub const fn verif_set_uuid_raw(&mut self, uuid: Uuid) {
+        self.uuid = uuid;
+    }
+}
+
+// =============================================================================
 // TESTS
 // =============================================================================
 
